@@ -170,6 +170,8 @@ def check(case, ctx):
     if overlap:
         labels.add("overlap-in-section")
     labels.add("ok" if got.ok else "fail")
+    if spec["defs"][-1]["body"] == "tagmut":
+        labels.add("body-works-in-place-on-its-arguments")
     ctx.done(case, overlap or len(layers) >= 2, labels)
 
 
@@ -209,6 +211,30 @@ def cases(draw, prof):
     if not layers:
         layers = [{"how": "WithOptions", "opts": draw(layer_dicts())}]
     o = draw(U.option_dicts(p_present=draw(st.sampled_from([0.6, 0.9]))))
+    x = spec["defs"][-1]
+    if x["body"] == "tag" and not x.get("partial") and draw(st.integers(0, 4)) == 0:
+        x["params"] = [{"k": "opt", "key": k} for k in draw(st.lists(st.sampled_from(["A", "B", "S.X", "S.Y", "R.U.V"]), min_size=1, max_size=2, unique=True))]
+    if x["body"] == "tag" and x.get("params") and all(p["k"] == "opt" and p["key"] in U.VALUE_KEYS for p in x["params"]) \
+            and not x.get("partial") and draw(st.integers(0, 1)) == 0:
+        # X works in place on its arguments, which are containers without any templated string, held by the caller's
+        # and by the layers' dictionaries
+        x["body"] = "tagmut"
+        for p in x["params"]:
+            v = draw(st.sampled_from([[1], [0, None], [[2, 1], [3]], {"q": 1, "r": [1]}, [{"q": 1}]]))
+            def free(i):
+                # (two dataset-level layers of the same direction never assign the same leaf: see ASSUMPTIONS)
+                ly = layers[i]
+                if ly["how"] not in DATASET_LEVEL:
+                    return True
+                side = ly["how"] in ("ds_options", "with_options")
+                return not any(j != i and other["how"] in DATASET_LEVEL and (other["how"] in ("ds_options", "with_options")) == side
+                               and any(related(p["key"], t) for t in leaves(other["opts"])) for j, other in enumerate(layers))
+            spots = [i for i in range(len(layers)) if free(i)] + [len(layers)]
+            where = draw(st.sampled_from(spots))
+            if where == len(layers):
+                o = U.dotted_set(o, p["key"], v)
+            else:
+                layers[where]["opts"] = U.dotted_set(layers[where]["opts"], p["key"], v)
     return {"spec": spec, "layers": layers, "options": o}
 
 
